@@ -56,6 +56,9 @@ def configs(tier):
                     if not q and n in (9, 7) and centre == 'trough':
                         continue
                     out.append({'mode': 'units', 'n': n, 'L': L, 'method': method, 'centre': centre})
+    # both analyses are handed the very same (initially empty) burst-option dictionary, as an object refitted with
+    # other units would do
+    out.append({'mode': 'units', 'n': 6, 'L': 1, 'method': 'amp', 'centre': 'peak', 'shared_bk': True})
     return out
 
 
@@ -167,17 +170,18 @@ def run(ctx, cfg):
         st = pipe.Stubs(ctx, L, relate=('ratio',), min_halfwaves=2)
         fek = {'pad': L > 0}
         bk = {'amp_threshes': (1, 2)} if method == 'amp' else None
+        shared = {} if cfg.get('shared_bk') else None
         try:
             t1 = ff.compute_features(sig, 500.0, (8.0, 12.0), center_extrema=centre, burst_method=method,
-                                     burst_kwargs=dict(bk) if bk else None, threshold_kwargs=dict(thr),
-                                     find_extrema_kwargs=dict(fek))
+                                     burst_kwargs=shared if shared is not None else (dict(bk) if bk else None),
+                                     threshold_kwargs=dict(thr), find_extrema_kwargs=dict(fek))
         except Exception:
             return
         try:
             t2 = ff.compute_features(np.array(list(x), dtype=float), 500.0 * c, (8.0 * c, 12.0 * c),
                                      center_extrema=centre, burst_method=method,
-                                     burst_kwargs=dict(bk) if bk else None, threshold_kwargs=dict(thr),
-                                     find_extrema_kwargs=dict(fek))
+                                     burst_kwargs=shared if shared is not None else (dict(bk) if bk else None),
+                                     threshold_kwargs=dict(thr), find_extrema_kwargs=dict(fek))
         except Exception as e:
             ctx.fail('rescaled units: ' + exc_label(e))
             return
